@@ -25,6 +25,16 @@ CHECKS['C06'] = dict(
     design_ref='DESIGN.md section 4 C06',
     note='T7 listener frame; answers are fresh decoder objects with created == msg.now (C02); one identity with both zero '
          'and non-zero TTL in a datagram excluded; ghost index function ai (conservative); float as real')
+CHECKS['C14'] = dict(
+    text='Every size-bookkeeping step of the message builder is under contract (28 functions): size == 12 + sum of chunk '
+         'lengths is an invariant of all writers; _check_data_limit_or_rollback restores exactly the entry it rejects; each '
+         'section loop obeys the size law (<= 1460, or one entry <= 8966); packets() is verified with a ghost record per '
+         'datagram: datagram length equals the tracked size, the size law, consecutive offset ranges from 0 to the section '
+         'lengths (every entry in exactly one datagram), header words equal the counts written, TC exactly on continuing '
+         'queries, id 0 on multicast. All for unbounded section sizes and record contents.',
+    design_ref='DESIGN.md section 4 C14',
+    note='struct packers modelled as fixed-width encoders; string operations uninterpreted here (byte forms are C01); '
+         'DNSNsec.write assumed to keep the size bookkeeping (bytearray bit operations outside the engine); sections < 65536 entries')
 NOT_APPLICABLE = {
     'C07': 'end-to-end liveness over several hosts and lossy delivery: no per-function contract can express it '
            '(DESIGN.md section 6)',
